@@ -124,6 +124,38 @@ fn enc(ws: &[&str]) -> String {
     }
 }
 
+/// `encsweep <fn>`: every 32-bit input of a 32-bit encoder (16 threads); answers with all accepted `value:encoding` pairs in value order
+fn encsweep(name: &str) -> String {
+    use crate::arch::aarch64::encoding_helpers as h;
+    let f: fn(u32) -> Option<u64> = match name {
+        "p.logical32" => |x| h::encode_logical_immediate_32bit(x).map(u64::from),
+        "r.logical32" => |x| dynasmrt::aarch64::encode_logical_immediate_32bit(x).map(u64::from),
+        "p.wide32" => |x| h::encode_wide_immediate_32bit(x).map(u64::from),
+        "p.float" => |x| h::encode_floating_point_immediate(f32::from_bits(x)).map(u64::from),
+        "r.float" => |x| dynasmrt::aarch64::encode_floating_point_immediate(f32::from_bits(x)).map(u64::from),
+        _ => return "bad-op".into(),
+    };
+    let threads = 16u64;
+    let per = (1u64 << 32) / threads;
+    let handles: Vec<_> = (0..threads).map(|t| std::thread::spawn(move || {
+        let mut out: Vec<(u32, u64)> = Vec::new();
+        let mut panicked = 0u64;
+        for v in (t * per)..((t + 1) * per) {
+            match catch_unwind(|| f(v as u32)) {
+                Ok(Some(e)) => out.push((v as u32, e)),
+                Ok(None) => (),
+                Err(_) => panicked += 1,
+            }
+        }
+        (out, panicked)
+    })).collect();
+    let mut all = Vec::new();
+    let mut panics = 0;
+    for h in handles { let (o, p) = h.join().unwrap(); all.extend(o); panics += p; }
+    let body: Vec<String> = all.iter().map(|(v, e)| format!("{}:{}", v, e)).collect();
+    format!("n={} panics={} {}", all.len(), panics, body.join(" "))
+}
+
 /// `feat a,b,c`: riscv `parse_features` on the given identifiers → the resulting ExtensionFlags bits and the diagnostics
 fn feat(rest: &str) -> String {
     let _ = proc_macro_error2::take_errors();
@@ -153,6 +185,7 @@ fn exec() {
             "ser" => answer_serialize(rest),
             "enc" => { let ws: Vec<&str> = t.split_whitespace().collect(); enc(&ws) }
             "feat" => feat(rest),
+            "encsweep" => encsweep(rest.trim()),
             _ => "bad-op".into(),
         };
         writeln!(out, "= {}", ans).unwrap();
